@@ -15,7 +15,7 @@ EXTENDS IndexWrapper, Json, Randomization
 
 CONSTANTS MCN,        \* number of samples
           MaxLen,     \* longest index list
-          Alphabet,   \* "tiny" | "narrow" | "mid" | "wide"
+          Alphabet,   \* "tiny" | "narrow" | "mid" | "wide" | "sim"
           Prefits,    \* subset of {"none", "fit", "fitbase"}
           CfgSel,     \* "all" | "core" (flags that are inert for a kind left FALSE)
           Depth,
@@ -57,14 +57,20 @@ ArgsTiny == {[I |-> <<1>>, Y |-> <<>>, W |-> <<>>],
              [I |-> <<3, 1>>, Y |-> <<Missing, 1>>, W |-> <<>>],
              [I |-> <<2>>, Y |-> <<0>>, W |-> <<2>>]}
 
+\* sim (random walks): wide plus lists of three distinct samples
+Distinct3 == {I \in [1..3 -> 1..MCN] : I[1] # I[2] /\ I[1] # I[3] /\ I[2] # I[3]}
+ArgsSim == ArgsWide \cup UNION {ArgsOf(I, {<<>>, <<0, 1, Missing>>, <<1, 1, 0>>, <<Missing, 0, 0>>},
+                                           {<<>>, <<1, 2, 1>>, <<2, 2, 2>>}) : I \in Distinct3}
+
 MCArgs == CASE Alphabet = "tiny" -> ArgsTiny
+            [] Alphabet = "sim" -> ArgsSim
             [] Alphabet = "narrow" -> ArgsNarrow
             [] Alphabet = "mid" -> ArgsMid
             [] OTHER -> ArgsWide
 
 AllS == [k \in 1..MCN |-> k]
 MCPreArgs ==
-    IF Alphabet = "wide"
+    IF Alphabet \in {"wide", "sim"}
     THEN {[F |-> f, P |-> p, fp |-> a, pp |-> b] :
             f \in {AllS, <<1>>, <<2, 3>>}, p \in {AllS, <<2>>, <<1, 3>>},
             a \in {"all", "labeled"}, b \in {"all", "unlabeled"}}
